@@ -21,9 +21,11 @@ the last component is followed).  Recursion uses fuel (one unit per component st
 that only normalises hard link names, `Cfg.repaired` all checks of `TarHelper.__checkMember`.
 The checks are extra rejections before `tar.extract`; the extraction code is the same for all.
 
-Not modelled (result `unsupported`, the run stops there): the fallback of `TarFile.makelink`
-that re-extracts another archive member (except the frequent case "earlier regular member":
-`StreamError`), writes onto fifos, symbolic link loops seen by realpath.  Ownership and time
+The fallback of `TarFile.makelink` for hard link members (re-extraction of the link target member
+from the archive, `reextract` / `linkFallback`) is modelled.  Not modelled (result `unsupported`,
+the run stops there): the same fallback for *symbolic* link members (`unlink`/`symlink` failed; it
+searches the whole archive), writes onto fifos, symbolic link loops seen by realpath, hard link
+names with a trailing slash.  Ownership and time
 stamps are not kept; `chown/chmod/utime` are one step that follows links and is skipped on
 failure.  Paths are absolute; the umask is 022.
 -/
@@ -383,17 +385,84 @@ def checkMember (cfg : Cfg) (fs : FS) (dest : List Name) (m : Member) : Except E
             | _ => .error .filterLink
       else .ok ()
 
+/-- `os.path.normpath` as a comparison key (`_getmember(..., normalize=True)`): the lexically
+normalised components plus the number of leading slashes Python keeps (exactly two stay two) -/
+def normKey (s : Str) : Nat × List Name :=
+  let lead : Nat :=
+    if isAbs s then (if (s.drop 1).head? = some slash ∧ (s.drop 2).head? ≠ some slash then 2 else 1) else 0
+  (lead, (normpath s).2)
+
+/-- The re-extraction fallback of `TarFile.makelink` for a hard link member whose `os.link` was not
+possible: `_find_link_target` (`_getmember(linkname, tarinfo=<the link member>, normalize=True)`:
+the latest member *before* the link member whose normalised name equals the normalised link name;
+`before` holds those members latest first, named as `__extractPackage` has renamed them) and
+`_extract_member(<that member>, targetpath)` at the path `full` of the link member.
+ * no such member: `KeyError` (result `keyerror`; the callers turn it into what `makelink` does);
+ * `getmembers()` has read the stream to its end, so the data of a regular member cannot be read
+   again: `StreamError`;
+ * directory / fifo / device: as in a first extraction, with the attributes of the *found* member;
+ * symbolic link: `unlink` + `symlink`, no attribute calls that follow links; its own fallback
+   (when that fails) is not modelled: `unsupported`;
+ * hard link: the archive's own `TarInfo` has no `_link_target` (`AttributeError`, which is one of
+   `symlink_exception`), so `makelink` enters its handler and re-extracts *that* member's target,
+   searched before it; afterwards the attributes of the found hard link member are applied.  A
+   `KeyError` in the handler becomes `ExtractError`, which is only logged at errorlevel 1 — but
+   the stream is exhausted and the next `tar.next()` of `__extractPackage` raises `StreamError`.
+The upper directories exist (the outer `_extract_member` has just created them), `os.makedirs` is
+not run again.  An `OSError` of the first attempt in the `else` branch of `makelink` enters the
+handler, which repeats the same re-extraction on the unchanged tree and fails the same way. -/
+def reextract (cfg : Cfg) (fs : FS) (full : List Name) : List Member → Str → FS × Option Err
+  | [], _ => (fs, some .keyerror)
+  | t :: before, ln =>
+    if normKey t.name ≠ normKey ln then reextract cfg fs full before ln
+    else
+      match t.type with
+      | .reg => (fs, some .streamerror)
+      | .dir =>
+        let r := kMkdir fs cfg full 0o700
+        match r.2 with
+        | .ok => (chmodFollow r.1 cfg full t.mode, none)
+        | .eexist => (chmodFollow r.1 cfg full t.mode, none)
+        | _ => (r.1, some .oserror)
+      | .sym =>
+        let r := kSymlink fs cfg full t.linkname
+        match r.2 with
+        | .ok => (r.1, none)
+        | _ => (r.1, some .unsupported)
+      | .lnk =>
+        let r := reextract cfg fs full before t.linkname
+        match r.2 with
+        | none => (chmodFollow r.1 cfg full t.mode, none)
+        | some .keyerror => (r.1, some .streamerror)
+        | some e => (r.1, some e)
+      | .fifo =>
+        let r := kMknod fs cfg full .fifo
+        match r.2 with
+        | .ok => (chmodFollow r.1 cfg full t.mode, none)
+        | _ => (r.1, some .oserror)
+      | .chr =>
+        let r := kMknod fs cfg full .chr
+        match r.2 with
+        | .ok => (chmodFollow r.1 cfg full t.mode, none)
+        | _ => (r.1, some .oserror)
+
+/-- `makelink` of a hard link member after `os.link` was not possible (`fs`: the tree at that
+point).  A successful re-extraction is followed by the attribute calls of the link member itself
+(`chown`/`chmod`/`utime` follow symbolic links), and then `__extractPackage` asks the exhausted
+stream for the next member: `StreamError`.  `notFound`: what a `KeyError` of `_find_link_target`
+becomes (`keyerror` in the `else` branch of `makelink`, `ExtractError` = logged only in its handler). -/
+def linkFallback (cfg : Cfg) (fs : FS) (full : List Name) (prev : List Member) (m : Member) (notFound : Err) : FS × Option Err :=
+  let r := reextract cfg fs full prev m.linkname
+  match r.2 with
+  | none => (chmodFollow r.1 cfg full m.mode, some .streamerror)
+  | some .keyerror => (r.1, some notFound)
+  | some e => (r.1, some e)
+
 /-- `TarFile._extract_member` for a member that passed the filter (`m.name` is the filtered
 name), including the creation of the upper directories and the attribute calls.
-`prev`: names and types of the members seen before (as renamed by the dispatch, latest first), for
+`prev`: the members seen before (as renamed by the dispatch, latest first), for
 `_find_link_target`. -/
-def linkFallback (prev : List (Str × MType)) (linkname : Str) (notFound : Err) : Err :=
-  match prev.find? (fun n => decide (normpath n.1 = normpath linkname)) with
-  | none => notFound
-  | some (_, .reg) => .streamerror      -- re-extraction of an earlier regular member: the stream cannot seek back
-  | some _ => .unsupported
-
-def extractMember (cfg : Cfg) (fs : FS) (dest : List Name) (prev : List (Str × MType)) (m : Member) : FS × Option Err :=
+def extractMember (cfg : Cfg) (fs : FS) (dest : List Name) (prev : List Member) (m : Member) : FS × Option Err :=
   let full := dest ++ comps m.name
   let up := full.dropLast
   let r1 := if up ≠ [] ∧ kexists fs cfg up = false then makedirs fs cfg up.length up else (fs, KRes.ok)
@@ -428,8 +497,8 @@ def extractMember (cfg : Cfg) (fs : FS) (dest : List Name) (prev : List (Str × 
         let r := kLink fs1 cfg src full
         match r.2 with
         | .ok => (chmodFollow r.1 cfg full m.mode, none)
-        | _ => (r.1, some (linkFallback prev m.linkname .unsupported))
-      else (fs1, some (linkFallback prev m.linkname .keyerror))
+        | _ => linkFallback cfg r.1 full prev m .streamerror
+      else linkFallback cfg fs1 full prev m .keyerror
     | .fifo =>
       let r := kMknod fs1 cfg full .fifo
       match r.2 with
@@ -467,21 +536,21 @@ def dispatch (cfg : Cfg) (m : Member) : Except Err Action :=
 structure St where
   fs : FS
   err : Option Err
-  prev : List (Str × MType)
+  prev : List Member
   deriving Repr
 
 def stepMember (cfg : Cfg) (dest audit : List Name) (st : St) (m : Member) : St :=
   if st.err.isSome then st else
   match dispatch cfg m with
   | .error e => { st with err := some e }
-  | .ok .skip => { st with prev := (m.name, m.type) :: st.prev }
+  | .ok .skip => { st with prev := m :: st.prev }
   | .ok .audit =>
     -- `tar.extractfile(f)`: a file object only for regular members
     if m.type = .sym ∨ m.type = .lnk then { st with err := some .streamerror } else
     if m.type ≠ .reg then { st with err := some .internal } else
     let r := kWrite st.fs cfg audit m.data
     match r.2 with
-    | .ok => { fs := r.1, err := none, prev := (m.name, m.type) :: st.prev }
+    | .ok => { fs := r.1, err := none, prev := m :: st.prev }
     | .unsup => { st with fs := r.1, err := some .unsupported }
     | _ => { st with fs := r.1, err := some .oserror }
   | .ok (.content m') =>
@@ -492,7 +561,7 @@ def stepMember (cfg : Cfg) (dest audit : List Name) (st : St) (m : Member) : St 
       | .error e => { st with err := some e }
       | .ok m'' =>
         let r := extractMember cfg st.fs dest st.prev m''
-        { fs := r.1, err := r.2, prev := (m'.name, m'.type) :: st.prev }
+        { fs := r.1, err := r.2, prev := m' :: st.prev }
 
 /-- `__extractPackage(tar, audit, content)`; `vsn` is the pax header `bob-archive-vsn` -/
 def extractPackage (cfg : Cfg) (dest audit : List Name) (vsn : Option Str) (fs : FS) (ms : List Member) : St :=
